@@ -8,7 +8,7 @@ from harness import pipeline as PL, solver as S
 SPEC = {
     "gen": ["Rotations", "GetHkl"],
     "modules": ["DiffcalcProofs.Props.C01", "DiffcalcProofs.Props.C01Sample", "DiffcalcProofs.Props.C01Detector", "DiffcalcProofs.Props.C01Assembly",
-                "DiffcalcProofs.Props.C01Assembly2"],
+                "DiffcalcProofs.Props.C01Assembly2", "DiffcalcProofs.Props.C01Bridge"],
     "theorems": {"DiffcalcProofs.Props.C01": [
         "C01.getPosition_guard", "C01.getPosition_pairs_virtualAngles", "C01.guard_forward_model", "C01.composition",
         "C01.detFromQaz_sound", "C01.threeSample_detector_sound", "C01.twoSampleAndReference_detector_sound"],
@@ -25,7 +25,8 @@ SPEC = {
         "DiffcalcProofs.Props.C01Detector": ["C01.eq_of_sq_eq_of_sign", "C01.detFromDelta_sound", "C01.detFromNu_sound", "C01.detRemaining_sound"],
         "DiffcalcProofs.Props.C01Assembly": ["C01.ttheta_eq", "C01.detSamp2_qaz_exact", "C01.detSamp2_exact"],
         "DiffcalcProofs.Props.C01Assembly2": ["C01.threeSample_mem", "C01.samp3_exact", "C01.refSpec_sampleSpec", "C01.twoSampleAndReference_sound",
-                                              "C01.refSamp2_exact", "C01.detOrNaz_sound", "C01.detRefSamp_exact"]},
+                                              "C01.refSamp2_exact", "C01.detOrNaz_sound", "C01.detRefSamp_exact"],
+        "DiffcalcProofs.Props.C01Bridge": ["C01.getHkl_solToPos", "C01.getPosition_exact"]},
     "level": "proof",
     "rule": "all 185 implemented modes x requests built from random physical positions over (-180,180]^6 (so that solutions exist), oblique "
             "cells, rotated U, hkl- and lab-frame vectors of non-unit length, plus special-value requests (multiples of 30/45/90 deg, axis hkl) and "
